@@ -243,6 +243,42 @@ func (d *Driver) runShard(bin string, v Variant, shard, nshards int, timeout tim
 		if mark != "" {
 			stderrHead = "last journaled step: " + mark + " | " + stderrHead
 		}
+		if code == 5 && open != "" {
+			// a single case exhausted its CPU-time budget: non-termination (or a
+			// blow-up by orders of magnitude) of a library call on that input
+			stream, idx := open, 0
+			if i := strings.LastIndexByte(open, '/'); i >= 0 {
+				stream = open[:i]
+				idx, _ = strconv.Atoi(open[i+1:])
+			}
+			spec := ReplaySpec{Property: d.Prop.ID, Tier: d.Tier, Seed: d.Seed, Variant: v.Name, Stream: stream, Index: idx,
+				Monitor: "terminates", Class: "cpu-budget", Detail: "the case did not finish within its CPU-time budget: " + stderrHead}
+			b, _ := json.MarshalIndent(spec, "", " ")
+			dir := filepath.Join(ReplayRoot(d.Root), d.Prop.ID)
+			os.MkdirAll(dir, 0o755)
+			path := filepath.Join(dir, fmt.Sprintf("cpu-budget-%s-%d-%d.json", sanitize(stream), idx, d.Seed))
+			os.WriteFile(path, b, 0o644)
+			stop := false
+			d.mu(func() {
+				d.Agg.Violations = append(d.Agg.Violations, Violation{Monitor: "terminates", Class: "cpu-budget", Detail: spec.Detail, Stream: stream, Index: idx, Variant: v.Name, Replay: path})
+				m := d.Agg.Monitors["terminates"]
+				if m == nil {
+					m = &MonStat{}
+					d.Agg.Monitors["terminates"] = m
+				}
+				m.Fails++
+				stop = m.Fails >= 3
+			})
+			if stop {
+				// enough witnesses; do not spend more budget on this shard
+				d.mu(func() {
+					d.Agg.Inconcl = append(d.Agg.Inconcl, fmt.Sprintf("worker %s/%d abandoned after repeated CPU-budget violations", v.Name, shard))
+				})
+				return
+			}
+			skip = append(skip, open)
+			continue
+		}
 		if code == 3 || code == 4 || open == "" || !d.Prop.DeathIsViolation {
 			d.mu(func() {
 				d.Agg.Inconcl = append(d.Agg.Inconcl, fmt.Sprintf("worker %s/%d died (exit %d, %v) on case %q: %s", v.Name, shard, code, err, open, stderrHead))
